@@ -28,9 +28,9 @@ def plan(tier, seed):
         shards.append(dict(no=no, x=x, part="lengths", idx=0)); no += 1
         shards.append(dict(no=no, x=x, part="grid", idx=0)); no += 1
         shards.append(dict(no=no, x=x, part="h2f", idx=0)); no += 1
-        for i in range(3 if q else 24):
+        for i in range(3 if q else 200):
             shards.append(dict(no=no, x=x, part="random", idx=i)); no += 1
-    for i in range(4 if q else 40):
+    for i in range(4 if q else 200):
         shards.append(dict(no=no, x="-", part="okm", idx=i)); no += 1
     return shards
 
